@@ -503,6 +503,12 @@ def mouseOwn (cfg : Cfg) (st : St) (win : Id) (ev : Ev) : Out (St × Option Id) 
     pure (st, some win)
   else pure (st, none)
 
+/-- After the children: if one of them took the event that is the result, otherwise the window's own handlers run. -/
+def mouseSelf (cfg : Cfg) (st : St) (win : Id) (ev : Ev) (r : Option Id) : Out (St × Option Id) :=
+  match r with
+  | some h => pure (st, some h)
+  | none => mouseOwn cfg st win ev
+
 /-- `done:` of `_handle_mouse`. -/
 def mouseDone (cfg : Cfg) (st : St) (win : Id) (ret : Option Id) : Out (St × Option Id) := do
   -- if(win->is_closed || win->refcount == 1) ret = NULL;   (the rule of 443f8da; gone with the counted return)
@@ -518,9 +524,7 @@ def handleMouseBody (cfg : Cfg) (rec : MouseRec) (fuel : Nat) (st : St) (win : I
   if !vis then pure (st, none) else
   let st ← refWin st win
   let (st, r) ← mouseChildren cfg rec fuel st win ev
-  let (st, r) ← match r with
-    | some h => (pure (st, some h) : Out (St × Option Id))
-    | none => mouseOwn cfg st win ev
+  let (st, r) ← mouseSelf cfg st win ev r
   mouseDone cfg st win r
 
 /-- `_handle_mouse`. -/
